@@ -1,5 +1,7 @@
 (* C20 — Hooks fire in well-formed start/stop pairs (path hooks: runOnAvailable/runOnUnavailable = "ready /
    not ready", runOnOnline/runOnOffline, runOnDemand/runOnUnDemand). Only statements here.
+   `cf` ranges over every configuration, alwaysAvailable paths included (there the available pair is opened by
+   initialize() and the online pair follows the publishers / the static source).
    EOpen k = the call of hooks.OnAvailable / OnOnline / OnDemand (which runs the start command),
    EClose k = the call of the closure it returned (which stops it and launches the un-command). *)
 From Coq Require Import List ZArith.
@@ -49,7 +51,15 @@ Print Assumptions C20_logs_are_expansion_of_calls.
 
 (* non-vacuity: an on-demand history opens and closes all three pairs *)
 Example C20_example :
-  let cf := mkConf false false true 0 true true true true true true in
-  filter is_hook (snd (run cf [AddReader 1 1; AddPublisher 2 1; RemoveReader 1; TimerFire TPubClose; Close]))
+  let cf := mkConf false false true 0 true true true true true true false in
+  filter is_hook (snd (run cf [AddReader 1 1; AddPublisher 2 1 true; RemoveReader 1; TimerFire TPubClose; Close]))
   = [EOpen HDemand; EOpen HAvail; EOpen HOnline; EClose HDemand; EClose HOnline; EClose HAvail].
+Proof. vm_compute. reflexivity. Qed.
+
+(* non-vacuity, alwaysAvailable: the available pair is opened by initialize(), the online pair follows the
+   publishers, and Close while a publisher is online closes both *)
+Example C20_example_always_available :
+  let cf := mkConf false false true 0 true true true true false false true in
+  filter is_hook (snd (run cf [AddPublisher 1 1 true; RemovePublisher 1; AddPublisher 2 2 true; Close]))
+  = [EOpen HAvail; EOpen HOnline; EClose HOnline; EOpen HOnline; EClose HOnline; EClose HAvail].
 Proof. vm_compute. reflexivity. Qed.
